@@ -87,6 +87,13 @@ PEER = {
     'pRELRQ': R.build_pdu({'type': 5}),
     'pRELRP': R.build_pdu({'type': 6}),
     'pABORT': R.build_pdu({'type': 7, 'source': 2, 'reason': 4}),
+    # A-ASSOCIATE-RQ of a peer that supports further protocol versions as well (bit 0 = version 1:
+    # PS3.8 9.3.2 "a receiver ... shall only test that bit 0 is set")
+    'pRQv3': R.build_pdu(dict(assoc_rq_tree(), version=0x0003)),
+    'pRQvFFFF': R.build_pdu(dict(assoc_rq_tree(), version=0xFFFF)),
+    'pACv8001': R.build_pdu(dict(assoc_ac_tree(), version=0x8001)),
+    'pABORTu': R.build_pdu({'type': 7, 'source': 0, 'reason': 0}),
+    'pRJt': R.build_pdu({'type': 3, 'result': 2, 'source': 3, 'reason': 1}),
     'pUNK': bytes([0x0A, 0, 0, 0, 0, 4, 1, 2, 3, 4]),
     'pINV': bytes([0x01, 0, 0, 0, 0, 10]) + b'\x00\x01' + b'X' * 8,
 }
@@ -95,7 +102,10 @@ PEER_KIND = {'pRQ': 'A-ASSOCIATE-RQ', 'pAC': 'A-ASSOCIATE-AC', 'pRJ': 'A-ASSOCIA
              'pRELRQ': 'A-RELEASE-RQ', 'pRELRP': 'A-RELEASE-RP', 'pABORT': 'A-ABORT',
              'pUNK': 'INVALID', 'pINV': 'INVALID'}
 PEER_INFO = {'pDATA': {'completes': True}, 'pPART': {'completes': False},
-             'pREST': {'completes': True}, 'pABORT': {'abort': (2, 4)}, 'pRJ': {'rj': (1, 1, 3)}}
+             'pREST': {'completes': True}, 'pABORT': {'abort': (2, 4)}, 'pRJ': {'rj': (1, 1, 3)},
+             'pABORTu': {'abort': (0, 0)}, 'pRJt': {'rj': (2, 3, 1)}}
+PEER_KIND.update({'pRQv3': 'A-ASSOCIATE-RQ', 'pRQvFFFF': 'A-ASSOCIATE-RQ', 'pACv8001': 'A-ASSOCIATE-AC',
+                  'pABORTu': 'A-ABORT', 'pRJt': 'A-ASSOCIATE-RJ'})
 
 USER_KIND = {'uRQ': 'A-ASSOCIATE-RQ', 'uAC': 'A-ASSOCIATE-AC', 'uRJ': 'A-ASSOCIATE-RJ',
              'uDATA': 'P-DATA-TF', 'uDATA2': 'P-DATA-TF', 'uRELRQ': 'A-RELEASE-RQ',
